@@ -925,6 +925,10 @@ where
                     "an RcWeakAnchor referring to a previously defined strong anchor (via alias)",
                 )
             }
+            // `null` (what a dangling weak serializes to) gives a dangling weak back.
+            fn visit_unit<E: serde::de::Error>(self) -> Result<Self::Value, E> {
+                Ok(RcWeakAnchor(RcWeak::new()))
+            }
             fn visit_newtype_struct<D>(self, deserializer: D) -> Result<Self::Value, D::Error>
             where
                 D: serde::de::Deserializer<'de>,
@@ -972,6 +976,10 @@ where
                 f.write_str(
                     "an ArcWeakAnchor referring to a previously defined strong anchor (via alias)",
                 )
+            }
+            // `null` (what a dangling weak serializes to) gives a dangling weak back.
+            fn visit_unit<E: serde::de::Error>(self) -> Result<Self::Value, E> {
+                Ok(ArcWeakAnchor(ArcWeak::new()))
             }
             fn visit_newtype_struct<D>(self, deserializer: D) -> Result<Self::Value, D::Error>
             where
